@@ -692,11 +692,13 @@ let parse_theader (line : string) : theader =
     | None -> (t, "")) (tokens line) in
   let fixed = get kv "fixed" "1" = "1" in
   let n = nat_of_int (geti kv "n" 1) in
+  let free = get kv "free" "0" = "1" in
   let sys = match get kv "sys" "take" with
-    | "take" -> TsTake (fixed, n)
-    | "merge" -> if get kv "free" "0" = "1" then TsMergeFine (fixed, n) else TsMerge n
-    | "combine" -> TsCombine (fixed, n)
+    | "take" -> if free then TsTakeFine n else TsTake (fixed, n)
+    | "merge" -> if free then TsMergeFine (fixed, n) else TsMerge n
+    | "combine" -> if free then TsCombineFine (fixed, n) else TsCombine (fixed, n)
     | "takemerge" -> TsTakeMerge (fixed, n, nat_of_int (geti kv "th" 2))
+    | "takecombine" -> TsTakeCombine (fixed, n, nat_of_int (geti kv "th" 2))
     | s -> failwith ("unknown sys " ^ s) in
   let nth = geti kv "th" 2 in
   let qs t = List.map (fun x -> VN (nat_of_int x)) (parse_list (get kv (Printf.sprintf "q%d" (int_of_nat t)) "-")) in
